@@ -210,13 +210,13 @@ theorem modify_restore_meets_spec_partial {N : Type} [DecidableEq N] (o : Obj N)
     (hex : getPath o.fields p = some old)
     (hleaf : p.length = 1 ∨ isDict old = false) :
     ∃ o1 o2, modify o p v = .ok o1 ∧ restore o1 p = .ok o2 ∧
-      specM [] o.fields [(.modify p v, true, o1.fields), (.restore p, true, o2.fields)] = none := by
+      specM {} o.fields [(.modify p v, true, o1.fields), (.restore p, true, o2.fields)] = none := by
   obtain ⟨o1, hm, hr⟩ := modify_restore_partial o p v old hex hleaf (by simp [origOf, hnone])
   refine ⟨o1, _, hm, hr, ?_⟩
-  simp [specM, specStepM, gLookup]
+  simp [specM, specStepM, gLookup, dormantOf]
 
 -- the specification is not vacuous: the trace the pinned code produces for F-C14a is rejected
-example : specM (N := Int) [] sampleObj.fields
+example : specM (N := Int) {} sampleObj.fields
     [(.modify [vars, ['x']] (.num 5), true,
         [(['n', 'o', 't', 'e', 's'], .str ['x']),
          (vars, .obj [(['a'], .str ['s']), (['d'], .obj [(['k'], .num 1)]), (['e'], .obj []), (['x'], .num 5)])]),
@@ -224,6 +224,97 @@ example : specM (N := Int) [] sampleObj.fields
         [(['n', 'o', 't', 'e', 's'], .str ['x']),
          (vars, .obj [(['a'], .str ['s']), (['d'], .obj [(['k'], .num 1)]), (['e'], .obj []), (['x'], .null)])])]
     = some .restoreIdentity := by decide
+
+/-! ### a whole attribute modified and restored while a modification below it is outstanding
+
+  "A modified attribute restored through the API returns exactly to its original value" also after the attribute
+  above it was modified as a whole and restored in between: the value `restore [f]` returns to still contains the
+  nested modification, which therefore must remain recorded (restorable, written to modified-attributes.conf). -/
+
+/-- **whole_modify_restore_identity.**  For every object with any recorded modifications `orig` that do not include
+    the top-level attribute `f` itself — in particular with modifications outstanding *below* `f` — and every value
+    `w`: `ModifyAttribute(f, w)` followed by `RestoreAttribute(f)` gives back exactly the same object: the attribute
+    tree **and every original entry**, including those of the nested modifications. -/
+theorem whole_modify_restore_identity {N : Type} (o : Obj N) (f : Key) (w x : JValue N) (orig : Orig N)
+    (hf : dGet? f o.fields = some x) (ho : o.original = some orig) (hnot : oHas [f] orig = false) :
+    ∃ o2, modify o [f] w = .ok o2 ∧ o2.fields = dSet f w o.fields ∧ restore o2 [f] = .ok o := by
+  refine ⟨{ fields := dSet f w o.fields, original := some (oAdd [f] x orig) }, ?_, rfl, ?_⟩
+  · simp [modify, hf, origOf, ho]
+  · cases o with
+    | mk fields original =>
+      simp at ho hf
+      subst ho
+      simp [restore, dGet_dSet_self w hf, oAdd, hnot, oGet_oInsert_self [f] x hnot, dSet_cancel w hf,
+        filter_eq_oInsert f x hnot]
+
+-- the hypotheses are satisfiable with a nested modification outstanding, and the conclusion is what evaluation gives
+example : (match modify sampleObj [vars, ['a']] (.num 7) with
+    | .ok o1 => (match modify o1 [vars] (.obj [(['z'], .null)]) with
+      | .ok o2 => decide (restore o2 [vars] = .ok o1) && decide (isModified o1 [vars, ['a']])
+      | .error _ => false)
+    | .error _ => false) = true := by decide
+
+/-- **nested_whole_restore_meets_spec** (whole four-step trace).  For every never-modified object, every nested path
+    `f.k.…` holding a non-dictionary and all values `v`, `w`: the model's trace
+    `modify f.k.… v; modify f w; restore f; restore f.k.…` succeeds step by step, `restore f` returns to exactly the
+    object after the first step, the last restore returns to the initial attribute tree, and the trace satisfies the
+    executable specification `specM` — whose clause for the last step is live: after `restore f` brought the nested
+    modification back it is tracked again (`Track.dormant`), so a `restore f.k.…` that leaves the modified value is
+    rejected (example below; that is the trace of a RestoreAttribute which drops the nested records). -/
+theorem nested_whole_restore_meets_spec {N : Type} [DecidableEq N] (o : Obj N) (f k : Key) (ks : Path) (v w old : JValue N)
+    (hnone : o.original = none)
+    (hex : getPath o.fields (f :: k :: ks) = some old)
+    (hleaf : isDict old = false) :
+    ∃ o1 o2, modify o (f :: k :: ks) v = .ok o1 ∧ modify o1 [f] w = .ok o2 ∧ restore o2 [f] = .ok o1 ∧
+      restore o1 (f :: k :: ks) = .ok { fields := o.fields, original := some [] } ∧
+      specM {} o.fields [(.modify (f :: k :: ks) v, true, o1.fields), (.modify [f] w, true, o2.fields),
+        (.restore [f], true, o1.fields), (.restore (f :: k :: ks), true, o.fields)] = none := by
+  obtain ⟨cur, cur', hf, hm, hr⟩ := modify_leaf_shape o f k ks v old hnone hex hleaf
+  have hf1 : dGet? f (dSet f cur' o.fields) = some cur' := dGet_dSet_self cur' hf
+  obtain ⟨o2, hm2, _, hr2⟩ := whole_modify_restore_identity
+    { fields := dSet f cur' o.fields, original := some [(f :: k :: ks, old)] } f w cur' [(f :: k :: ks, old)] hf1 rfl
+    (by simp [oHas])
+  refine ⟨_, o2, hm, hm2, hr2, hr, ?_⟩
+  simp [specM, specStepM, gLookup, strictBelow, isPrefix, dormantOf, getPath, hf1, getIn]
+
+private def varsA7 : Dict Int := [(['n', 'o', 't', 'e', 's'], .str ['x']),
+  (vars, .obj [(['a'], .num 7), (['d'], .obj [(['k'], .num 1)]), (['e'], .obj [])])]
+
+-- the clause is live: the same trace with a last step that reports success but leaves `vars.a = 7` is rejected …
+example : specM (N := Int) {} sampleObj.fields
+    [(.modify [vars, ['a']] (.num 7), true, varsA7),
+     (.modify [vars] (.obj [(['z'], .null)]), true, [(['n', 'o', 't', 'e', 's'], .str ['x']), (vars, .obj [(['z'], .null)])]),
+     (.restore [vars], true, varsA7),
+     (.restore [vars, ['a']], true, varsA7)] = some .restoreIdentity := by decide
+-- … and accepted when it returns to the initial tree
+example : specM (N := Int) {} sampleObj.fields
+    [(.modify [vars, ['a']] (.num 7), true, varsA7),
+     (.modify [vars] (.obj [(['z'], .null)]), true, [(['n', 'o', 't', 'e', 's'], .str ['x']), (vars, .obj [(['z'], .null)])]),
+     (.restore [vars], true, varsA7),
+     (.restore [vars, ['a']], true, sampleObj.fields)] = none := by decide
+
+private def v0 : Key := ['v', 'a', 'r', 's']
+private def objJ : Obj Int := { fields := [(v0, .obj [(['a'], .num 0), (['b'], .str ['x'])])], original := none }
+
+/-! ### F-C14j: the other order leaves a stale original behind
+
+  `modify vars W; modify vars.a v; restore vars`: the entry `vars.a ↦ W.a` recorded while `vars` was already modified
+  survives `RestoreAttribute("vars")` (configobject.cpp:307-315 removes only the entry `vars`).  The attribute tree is
+  back at the configured value, yet `vars.a` still counts as modified (IsAttributeModified, written to
+  modified-attributes.conf with the configured value, so after a restart its recorded original is another one), and
+  `RestoreAttribute("vars.a")` moves the *unmodified* `vars.a` to `W.a`, a value of the discarded dictionary. -/
+
+/-- **stale_nested_original_counterexample** (F-C14j), by evaluation of the model (diffed against the real code by the
+    corpus witness f_c14j_*.ops on every run). -/
+theorem stale_nested_original_counterexample :
+    ∃ o1 o2 o3 o4 : Obj Int,
+      modify objJ [v0] (.obj [(['a'], .num 5), (['c'], .num 1)]) = .ok o1 ∧
+      modify o1 [v0, ['a']] (.num 7) = .ok o2 ∧
+      restore o2 [v0] = .ok o3 ∧
+      o3.fields = objJ.fields ∧ isModified o3 [v0, ['a']] = true ∧
+      restore o3 [v0, ['a']] = .ok o4 ∧
+      getPath o4.fields [v0, ['a']] = some (.num 5) ∧ getPath objJ.fields [v0, ['a']] = some (.num 0) := by
+  refine ⟨_, _, _, _, rfl, rfl, rfl, ?_, ?_, rfl, ?_, ?_⟩ <;> decide
 
 /-! ## (a') runtime modifications across a restart: DumpModifiedAttributes and its replay -/
 
@@ -382,6 +473,70 @@ example : specRestartPinned (N := Int) "Downtime".toList sampleDowntime.fields
 example : specRestartPinned (N := Int) "Downtime".toList [("remove_time".toList, .num 0), ("triggers".toList, .arr [])]
     [("remove_time".toList, .num 0), ("triggers".toList, .arr [])] = some .stateRoundtrip := by decide
 example : specRestartPinned (N := Int) "Downtime".toList sampleDowntime.fields sampleDowntime.fields = none := by decide
+
+/-! ### typed objects nested in state values come back as objects
+
+  "identical values after a stop/start cycle, whatever their content (any nesting of dictionaries/arrays)": a
+  `PerfdataValue` inside the `performance_data` array of `last_check_result` must be a `PerfdataValue` again, not a
+  dictionary with the same members (`Serialize` shows both alike; `FormatPerfdata`, the perfdata writers and macros do not). -/
+
+/-- **typed_objects_roundtrip.**  For every getter-view tree — typed objects (tagged) and plain dictionaries nested in
+    arrays and dictionaries to any depth, every object's type registered — `Deserialize(Serialize(t), safe_mode = false)`
+    is `t` again: every object comes back as an object of its type at the same place, every dictionary as a dictionary. -/
+theorem typed_objects_roundtrip {N : Type} (known : Key → Bool) (t : JValue N) (h : wellTagged known t = true) :
+    deserializeT known false (stripTag t) = t :=
+  typed_roundtrip_aux known t h
+
+private def pdvKnown : Key → Bool := fun s => s = "PerfdataValue".toList || s = "CheckResult".toList
+/-- `last_check_result` = a CheckResult whose performance_data holds a string and a PerfdataValue. -/
+private def sampleCr : JValue Int :=
+  .obj [(objectTag, .bool true), ("output".toList, .str ['o', 'k']),
+        ("performance_data".toList, .arr [.str ['a', '=', '1'],
+           .obj [(objectTag, .bool true), ("label".toList, .str ['l']), (typeKey, .str "PerfdataValue".toList), ("value".toList, .num 7)]]),
+        (typeKey, .str "CheckResult".toList),
+        ("vars_after".toList, .obj [("attempt".toList, .num 1)])]
+
+-- the hypothesis is satisfiable on a non-trivial tree (object in array in object), and the conclusion is what evaluation gives
+example : wellTagged pdvKnown sampleCr = true := by decide
+example : deserializeT pdvKnown false (stripTag sampleCr) = sampleCr := by decide
+
+/-- **typed_model_refines_tree_model.**  The typed model and the tree model of `Deserialize` (the one
+    `state_roundtrip_partial` and `restart_meets_spec` are about) agree on everything `Serialize` shows: for every value
+    without `@object` members — everything read from a state file — serialising the getter view that
+    `deserializeT … false` produces gives exactly `deserialize`'s tree.  (The typed model only adds which of the
+    dictionaries are objects.) -/
+theorem typed_model_refines_tree_model {N : Type} (known : Key → Bool) (v : JValue N) (h : noTagKey v = true) :
+    stripTag (deserializeT known false v) = deserialize known v :=
+  stripTag_deserializeT_aux known v h
+
+example : noTagKey (stripTag sampleCr) = true := by decide
+
+/-- **restart_getters_meet_spec** (whole restart, getter view).  For every object whose getter record `getters` (the
+    attributes read one by one, typed objects tagged) is well-formed and holds every attribute the statement names for its
+    type `t`: what the model's restart makes of it — `Serialize` of every attribute (`stripTagM`), the state file, and
+    `Deserialize` with `safe_mode = false` onto the fresh object (`deserializeTM`) — satisfies `specRestartPinned`, the
+    clause the driver evaluates on the implementation's getter records before and after the restart: every pinned
+    attribute is there with the identical value, nested objects being objects of their type again. -/
+theorem restart_getters_meet_spec {N : Type} [DecidableEq N] (known : Key → Bool) (t : Key) (getters : Dict N)
+    (hwt : wellTaggedM known getters = true) (hno : dHas objectTag getters = false)
+    (hinv : ∀ a ∈ pinnedState t, dHas a getters = true) :
+    specRestartPinned t getters (deserializeTM known false (stripTagM getters)) = none := by
+  rw [typed_roundtrip_auxM known getters hwt hno]
+  exact specRestartPinned_self t getters hinv
+
+-- non-vacuity: a User record whose pinned attribute holds the sample CheckResult (objects two levels deep) satisfies the
+-- hypotheses; and the clause rejects the record that safe-mode deserialisation would produce
+example : wellTaggedM pdvKnown [("last_notification".toList, sampleCr)] = true ∧
+    (∀ a ∈ pinnedState "User".toList, dHas a [("last_notification".toList, sampleCr)] = true) := by decide
+example : specRestartPinned "User".toList [("last_notification".toList, sampleCr)]
+    (deserializeTM pdvKnown true (stripTagM [("last_notification".toList, sampleCr)])) = some .stateRoundtrip := by decide
+
+/-- **typed_objects_safe_mode_counterexample.**  The round trip depends on `safe_mode = false` reaching every level:
+    in safe mode the same state comes back with both objects degraded to dictionaries (what a DeserializeArray that
+    forces safe mode for its elements does to the PerfdataValue), and that is a different value. -/
+theorem typed_objects_safe_mode_counterexample :
+    deserializeT pdvKnown true (stripTag sampleCr) ≠ sampleCr ∧
+    stripTag (deserializeT pdvKnown true (stripTag sampleCr)) = stripTag sampleCr := by decide
 
 /-! ## (c) atomic replacement -/
 
